@@ -1,16 +1,73 @@
 package core
 
 import (
+	"errors"
+	iofs "io/fs"
+	"os"
+	"time"
+
+	"github.com/jsightapi/jsight-schema-go-library/fs"
+
 	"github.com/jsightapi/jsight-api-go-library/internal/verifrt"
+	"github.com/jsightapi/jsight-api-go-library/scanner"
 )
 
-// refNameForbidden is the reference predicate of C08(a): absolute, a '.' or
+// ---- virtual file system (symbolic world only; natively the real os is used
+// on a directory tree the replay driver does not create, so replays of these
+// harnesses exercise the "absent" outcome unless stated otherwise) ----
+
+type verifFileInfo struct{ dir bool }
+
+func (verifFileInfo) Name() string        { return "x" }
+func (verifFileInfo) Size() int64         { return 0 }
+func (verifFileInfo) Mode() iofs.FileMode { return 0 }
+func (verifFileInfo) ModTime() time.Time  { return time.Time{} }
+func (i verifFileInfo) IsDir() bool       { return i.dir }
+func (verifFileInfo) Sys() any            { return nil }
+
+var (
+	verifStatCalls []string
+	verifReadCalls []string
+	verifFileBytes []byte
+)
+
+const verifDir = "/p/d"
+
+// verifStubStat: os.Stat contract. A path that is the including file's
+// directory or one of its ancestors exists and is a directory (the including
+// file lies in it); anything else is absent, a directory, a regular file, or
+// fails with another error.
+func verifStubStat(name string) (os.FileInfo, error) {
+	verifStatCalls = append(verifStatCalls, name)
+	if name == "/p/d" || name == "/p" || name == "/" {
+		return verifFileInfo{dir: true}, nil
+	}
+	switch verifrt.Choice("stat", 4) {
+	case 0:
+		return nil, os.ErrNotExist
+	case 1:
+		return verifFileInfo{dir: true}, nil
+	case 2:
+		return verifFileInfo{dir: false}, nil
+	}
+	return nil, errors.New("permission denied")
+}
+
+// verifStubReadFile: os.ReadFile contract: fails or returns the virtual file's bytes.
+func verifStubReadFile(name string) ([]byte, error) {
+	verifReadCalls = append(verifReadCalls, name)
+	if verifrt.Choice("read", 2) == 0 {
+		return nil, errors.New("unreadable")
+	}
+	return verifFileBytes, nil
+}
+
+// refNameForbidden is the reference predicate of C08: absolute, a '.' or
 // '..' component, or a backslash.
 func refNameForbidden(s string) bool {
 	if s[0] == '/' {
 		return true
 	}
-	// split into '/'-separated components
 	start := 0
 	for i := 0; i <= len(s); i++ {
 		if i == len(s) || s[i] == '/' {
@@ -29,14 +86,94 @@ func refNameForbidden(s string) bool {
 	return false
 }
 
-// VerifH_IncludeNameValidator: every forbidden name is rejected by the real validator.
-func VerifH_IncludeNameValidator() {
+// refJoinBelow: dir + "/" + the non-empty components of s.
+func refJoinBelow(dir, s string) string {
+	out := dir
+	start := 0
+	for i := 0; i <= len(s); i++ {
+		if i == len(s) || s[i] == '/' {
+			if i > start {
+				out += "/" + s[start:i]
+			}
+			start = i + 1
+		}
+	}
+	return out
+}
+
+// VerifH_IncludePath (C08a): every forbidden INCLUDE name is rejected before
+// any file is read, and an accepted name resolves strictly below the directory
+// of the including file. The name goes through the real scanner as the
+// parameter of a real INCLUDE line.
+func VerifH_IncludePath() {
 	n := verifrt.Choice("n", verifrt.Bound("N")) + 1
 	s := verifrt.String("s", n)
-	err := validateIncludeFileName(s)
-	if refNameForbidden(s) {
-		verifrt.Assert("C08.name.forbidden-rejected", err != nil)
+	for i := 0; i < n; i++ {
+		c := s[i]
+		// bytes that end or quote an unquoted parameter are not part of a bare name
+		verifrt.Assume(c != ' ' && c != '\t' && c != '\n' && c != '\r' && c != '#' && c != 0 && c != '"')
 	}
-	verifrt.Reach("C08.name.accept", err == nil)
-	verifrt.Reach("C08.name.reject", err != nil)
+	if n >= 2 {
+		verifrt.Assume(!(s[0] == '/' && (s[1] == '/' || s[1] == '*'))) // would be an annotation
+	}
+	verifStatCalls, verifReadCalls = nil, nil
+	file := fs.NewFile(verifDir+"/root.jst", "INCLUDE "+s)
+	core := NewJApiCore(file)
+	kw, je := core.scanner.Next()
+	verifrt.Assert("C08.path.keyword", je == nil && kw != nil && kw.Type() == scanner.Keyword && isIncludeKeyword(kw))
+	path, je := core.getIncludedFilePath(kw)
+	if refNameForbidden(s) {
+		verifrt.Assert("C08.path.forbidden-rejected", je != nil)
+	}
+	if je == nil {
+		verifrt.Assert("C08.path.below-dir", path == refJoinBelow(verifDir, s) && len(path) > len(verifDir)+1)
+	} else {
+		verifrt.Assert("C08.path.error-at-keyword", je.Index() == 0)
+	}
+	verifrt.Assert("C08.path.no-read-in-validation", len(verifReadCalls) == 0)
+	for _, p := range verifStatCalls {
+		// only the resolved candidate is probed
+		verifrt.Assert("C08.path.stat-arg", p == refJoinBelow(verifDir, s) || refNameForbidden(s))
+	}
+	verifrt.Reach("C08.path.accept", je == nil)
+	verifrt.Reach("C08.path.reject", je != nil)
+}
+
+// VerifH_IncludeTargetKinds (C08b): absent target, directory, stat failure and
+// unreadable file are errors at the INCLUDE keyword; a forbidden name is
+// rejected before any file is read; on success the scanner is switched to the
+// included file and the includer is on the stack.
+func VerifH_IncludeTargetKinds() {
+	n := verifrt.Choice("n", verifrt.Bound("N")) + 1
+	s := verifrt.String("s", n)
+	for i := 0; i < n; i++ {
+		c := s[i]
+		verifrt.Assume(c != ' ' && c != '\t' && c != '\n' && c != '\r' && c != '#' && c != 0 && c != '"')
+	}
+	if n >= 2 {
+		verifrt.Assume(!(s[0] == '/' && (s[1] == '/' || s[1] == '*')))
+	}
+	verifStatCalls, verifReadCalls = nil, nil
+	verifFileBytes = []byte("URL /x")
+	file := fs.NewFile(verifDir+"/root.jst", "INCLUDE "+s)
+	core := NewJApiCore(file)
+	kw, _ := core.scanner.Next()
+	outer := core.scanner
+	je := core.processInclude(kw)
+	if refNameForbidden(s) {
+		verifrt.Assert("C08.kinds.forbidden-no-read", je != nil && len(verifReadCalls) == 0)
+	}
+	for _, p := range verifReadCalls {
+		verifrt.Assert("C08.kinds.read-below-dir", p == refJoinBelow(verifDir, s) && len(p) > len(verifDir)+1)
+	}
+	if je != nil {
+		verifrt.Assert("C08.kinds.error-at-keyword", je.Index() == 0)
+		verifrt.Assert("C08.kinds.scanner-unchanged", core.scanner == outer && core.scannersStack.Empty())
+	} else {
+		verifrt.Assert("C08.kinds.switched", core.scanner != outer && !core.scannersStack.Empty() &&
+			core.scanner.File().Name() == refJoinBelow(verifDir, s))
+		verifrt.Assert("C08.kinds.read-once", len(verifReadCalls) == 1)
+	}
+	verifrt.Reach("C08.kinds.ok", je == nil)
+	verifrt.Reach("C08.kinds.err", je != nil)
 }
